@@ -157,7 +157,13 @@ fn scenario_for(prop: &str) -> Option<Box<dyn coord::Scenario>> {
         "C04" => Some(Box::new(scen::w2::W2Scenario { prop: "C04" })),
         "C05" => Some(Box::new(scen::w2::W2Scenario { prop: "C05" })),
         "C07" => Some(Box::new(scen::crash::CrashScenario)),
-        "C08" => Some(Box::new(scen::pop::PopScenario { prop: "C08" })),
+        "C08" => Some(Box::new(scen::Mixed {
+            major: Box::new(scen::pop::PopScenario { prop: "C08" }),
+            minor: Box::new(scen::restart::RestartScenario),
+            every: 10,
+            minor_kind: "restart",
+        })),
+        "C08restart" => Some(Box::new(scen::restart::RestartScenario)),
         "C12" => Some(Box::new(scen::checker::CheckerScenario)),
         "C14" => Some(Box::new(scen::structs::StructScenario)),
         "C15" => Some(Box::new(scen::w3::W3Scenario)),
